@@ -1,6 +1,6 @@
 (* C03 — Configured decoding limits are enforced exactly.  Statements only. *)
 From Coq Require Import List ZArith.
-From OV Require Import C01.Codec C01.Builtins C01.Types C03.Proofs.
+From OV Require Import C01.Codec C01.Builtins C01.Types C01.Model C03.Model C03.Proofs.
 Open Scope Z_scope.
 
 (* Strings and byte strings (utf8 = true / false; limit = max_string_length / max_byte_string_length),
@@ -40,3 +40,31 @@ Theorem C03_chunk_too_large : forall o mt fin size ch body,
   dec_chunk o (chunk_header_bytes mt fin size ch ++ body) = (Err ELimit, st0).
 Proof. exact chunk_too_large. Qed.
 Print Assumptions C03_chunk_too_large.
+
+(* Regardless of where it is nested: a well-formed value of any type (Variant, DataValue, arrays,
+   generated structures ...) in which every string, byte string and array is within its limit (and
+   the nesting within the depth) is accepted; if any of them, at any position, exceeds its limit the
+   value is rejected. *)
+Theorem C03_nested_limits : forall t v o rest, wf_ty t v -> plain o ->
+  (fits_ty t o (depth0 o) v = true ->
+     Codec.run (dec_ty t o (depth0 o)) (enc_ty t v ++ rest) = Ok (norm_ty t v, rest)) /\
+  (fits_ty t o (depth0 o) v = false ->
+     exists e, Codec.run (dec_ty t o (depth0 o)) (enc_ty t v ++ rest) = Err e).
+Proof. exact nested_limits. Qed.
+Print Assumptions C03_nested_limits.
+
+(* ... and the error is the limit error when the first violation in decoding order is a length *)
+Theorem C03_nested_limit_error : forall t v o d rest, wf_ty t v -> offset_ns o = 0 ->
+  chk_ty t o d v = Some ELimit -> Codec.run (dec_ty t o d) (enc_ty t v ++ rest) = Err ELimit.
+Proof. exact nested_limit_error. Qed.
+Print Assumptions C03_nested_limit_error.
+
+(* The oracle holds on the model.  Full statement:
+     forall c, valid c -> known c = 0 -> oracle c (C03.Model.run c) = true.
+   Proved for the value cases and the chunk cases; for the raw length-field cases (CLen, 20 nesting
+   contexts) the statement is covered by C03_string_* / C03_array_* for the length field itself, but
+   the symbolic evaluation of each context prefix is not done. *)
+Theorem C03_oracle_partial : forall c, valid c -> proved_case c -> known c = 0 ->
+  oracle c (C03.Model.run c) = true.
+Proof. exact oracle_holds_partial. Qed.
+Print Assumptions C03_oracle_partial.
